@@ -159,6 +159,7 @@ Proof.
     pose proof (In_pget _ _ _ Hpk Hin) as Hpp. pose proof (HE _ _ Hpp Wo Er) as T. rewrite Ei in T. congruence.
   - reflexivity.
   - reflexivity.
+  - reflexivity.
   - (* Timeout *)
     rewrite sset_same; [reflexivity|]. rewrite sget_abs, Ep. cbn [option_map]. unfold abs_call. cbn. rewrite Eph. reflexivity.
   - (* End *)
